@@ -42,13 +42,13 @@ def plan(tier, seed):
     q = tier == 'quick'
     specs = []
     for fam in INT_FAMS:
-        specs.append(dict(label=fam, family=fam, cases=300 if q else 3000,
+        specs.append(dict(label=fam, family=fam, cases=300 if q else 10000,
                           seed=seed, tier=tier, variant='mon', big=not q,
-                          timeout=900 if q else 3000))
+                          timeout=900 if q else 7200))
         specs.append(dict(label=fam + '-asan', family=fam,
-                          cases=60 if q else 600, seed=seed + 3, tier=tier,
+                          cases=60 if q else 2000, seed=seed + 3, tier=tier,
                           variant='asan', big=False,
-                          timeout=1500 if q else 3000))
+                          timeout=1500 if q else 7200))
     return specs
 
 
